@@ -253,6 +253,32 @@ def r2b_visit_semantics(P, rep, ctx):
               message=f"IH5Group.visititems decides whether to stop with `{shown}`: h5py stops on any result that is not None, so falsy results (0, False, '') behave differently on the two drivers")
     d = sorted({f.x(c) for i, c, b in calls})
     rep.check(bool(calls) and all(f.x(b["__p"]) == f"self._rel_path({f.x(b['__n'])}._gpath)" for i, c, b in calls), "C09.R2", fi.qual, "callback receives the path relative to the visited group and the node", fi.loc(), construct=f"callback call {d}", message=f"visititems calls the callback as {d}")
+    # the container's wrappers hand the user's callback result back to the raw traversal (which stops on it) and the
+    # traversal's result back to the user
+    for q_ in (f"{W}.MetadorGroup.visititems", f"{W}.MetadorGroup.visit"):
+        wfi = P.func(q_)
+        wf_ = F(ctx, wfi)
+        ucb = wfi.params[1]
+        inner_ok = True
+        n_inner = 0
+        for nf in list(wfi.nested.values()) + [x_ for x_ in ast.walk(wfi.node) if isinstance(x_, ast.Lambda)]:
+            if isinstance(nf, ast.Lambda):
+                calls_ = [c for c in ast.walk(nf.body) if isinstance(c, ast.Call) and isinstance(c.func, ast.Name) and c.func.id == ucb]
+                if calls_:
+                    n_inner += 1
+                    inner_ok = inner_ok and isinstance(nf.body, ast.Call) and nf.body in calls_
+                continue
+            nff = F(ctx, nf)
+            calls_ = nff.call_sites(f"{ucb}(___)")
+            if not calls_:
+                continue
+            n_inner += 1
+            rets_ = [v_ for _, v_ in nff.returns() if v_ is not None and not (isinstance(v_, ast.Constant) and v_.value is None)]
+            inner_ok = inner_ok and bool(rets_) and all(M.match(f"{ucb}(___)", nff.xe(v_)) is not None for v_ in rets_) and all(isinstance(nff.g.nodes[i].stmt, (ast.Return, ast.Assign, ast.AnnAssign)) for i, c, b in calls_)
+        outer_rets = [v_ for _, v_ in wf_.returns() if v_ is not None]
+        outer_ok = bool(outer_rets) and all(isinstance(wf_.xe(v_), ast.Call) and norm(wf_.xe(v_).func).endswith((".visititems", ".visit")) for v_ in outer_rets) and not [p_ for p_ in wf_.g.pred.get(wf_.g.exit, []) if not isinstance(wf_.g.nodes[p_].stmt, ast.Return)]
+        rep.check(n_inner >= 1 and inner_ok and outer_ok, "C09.R2", wfi.qual, "the wrapper passes the callback's result to the raw traversal and the traversal's result to the caller", wfi.loc(), construct=f"{wfi.name} result plumbing",
+                  message=f"MetadorGroup.{wfi.name} drops the user callback's result (or the traversal's result): a callback that returns a value no longer stops the visit / the caller gets None, unlike plain h5py")
     vfi = P.func(f"{O}.IH5Group.visit")
     v = F(ctx, vfi)
     okv = False
@@ -292,6 +318,20 @@ def r3_kwargs_agree(P, rep, ctx):
                 elif isinstance(c.args[0], ast.Name):
                     for loop in (x for x in walk_local(f.node) if isinstance(x, ast.For) and norm(x.target) == c.args[0].id and isinstance(x.iter, (ast.List, ast.Tuple))):
                         consumed |= {e.value for e in loop.iter.elts if isinstance(e, ast.Constant)}
+    # the values: a deep copy that follows links, names the target explicitly (name=None) and copies attributes unless
+    # asked not to -- what h5py does by default and what the IH5 implementation implements
+    vals = {k.value: norm(v) for k, v in zip(ck[0].keys, ck[0].values) if isinstance(k, ast.Constant)}
+    want_vals = {"name": "None", "shallow": "False", "expand_soft": "True", "expand_external": "True", "expand_refs": "True"}
+    diff_vals = {k: vals.get(k) for k, w in want_vals.items() if vals.get(k) != w}
+    rep.check(not diff_vals, "C09.R3", mc.qual, f"the raw copy is requested deep, link-expanding, with an explicit target name: {want_vals}", mc.loc(), construct="copy kwargs values",
+              message=f"MetadorGroup.copy asks the raw copy for {diff_vals}: e.g. a shallow copy leaves out everything below the first level (and its metadata) although the user asked for a full copy")
+    mcf = F(ctx, mc)
+    opt = {kw: sorted({mcf.x(c) for i, c, b in mcf.call_sites(f"kwargs.pop('{kw}', ___)")}) for kw in ("without_attrs", "without_meta")}
+    rep.check(all(v == [f"kwargs.pop('{kw}', False)"] for kw, v in opt.items()), "C09.R3", mc.qual, "attributes and metadata are copied unless the caller opts out (both switches default to False)", mc.loc(), construct="copy option defaults",
+              message=f"MetadorGroup.copy reads its switches as {opt}: by default attributes / metadata would not be copied, unlike a plain h5py copy of the same nodes")
+    nm_pops = [mcf.x(c) for i, c, b in mcf.call_sites("kwargs.pop('name', __d)")]
+    rep.check(bool(nm_pops) and all(M.match("kwargs.pop('name', __s.name.split('/')[-1])", M.pat(t)) is not None for t in nm_pops), "C09.R3", mc.qual, "without an explicit name the copy is named after the last path segment of the source", mc.loc(), construct="copy default name",
+              message=f"MetadorGroup.copy derives the default target name as {nm_pops}: not the last segment of the source's path")
     rep.check(passed <= consumed, "C09.R3", mc.qual, f"keywords passed to the raw copy {sorted(passed)} are all consumed by the IH5 implementation {sorted(consumed)}", mc.loc(), construct=f"copy kwargs {sorted(passed)} vs {sorted(consumed)}",
               message=f"MetadorGroup.copy passes {sorted(passed - consumed)} to the raw copy, which IH5Group.copy/h5_copy_from_to reject as unknown keyword: copy works on h5py but raises on IH5")
     h = P.func(f"{O}.h5_copy_from_to")
